@@ -180,6 +180,10 @@ class PType:
                 if self.ptr and not self.ref and self.kind == "batch":
                     self.kind = "rows"      # pointer to an array of batches (haddp rows, transpose matrix)
             return
+        cm = re.match(r"^std::complex<(float|double)>$", t)
+        if cm and self.ptr:
+            self.tid, self.kind, self.complex = DEMANGLED_TO_TID[cm.group(1)], "mem", True     # array of interleaved (re, im) pairs
+            return
         if t in CPP_TO_AID or t in ("xsimd::generic", "xsimd::common"):
             self.kind = "tag"
             return
